@@ -2,6 +2,7 @@ CONFIG = {
     "level": "proof",
     "level_text": "Lean theorems (kernel-checked, no sorry/axioms) about the scheduler reference model for every operation history: sender order, no double scheduling, maximal-priority picks, capacity bound, minimal-priority eviction, strict replacement, forward expiry, reset. The Go scheduler is tied to the model on every run by a checked correspondence (generated histories incl. 2^63 / 2^64-1 boundaries, implementation choices validated as witnesses).",
     "technique": "Lean 4 proof over reference model + witness-checking correspondence with the Go scheduler",
+    "models": ["txpool"],
     "lean_sources": ["OasisModel/TxPool", "OasisModel/Proto.lean"],
     "drivers": [
         {"name": "txpooldrv",
